@@ -1,29 +1,49 @@
-"""Extension of the fail-closed translator (py2gallina.py, not modified) for the C20 loop kernels:
+"""Fail-closed translator for the C20 loop kernels (typed: Z / Q / bool / list Z / list Q), second version.
 
-    for i in range(hi) / range(lo, hi):     ->  for_range lo hi (fun i st => ...) st        (coq/C20/ForLoop.v)
-    x[i]            (x an integer array)    ->  zget x i     (out of bounds, incl. negative indices -> Fail)
-    x[i] = e, x[i] += e, x[i] -= e          ->  zset x i ...
-    len(x)                                  ->  Z.of_nat (length x)
+It follows the conventions of the shared translator (py2gallina.py, not modified; `Unsupported` and `_name` are taken
+from it) but is a separate class because the kernels need arrays, `for` loops and exact-real (Q) arithmetic.
+
+    for i in range(hi) / range(lo, hi):     ->  for_then (for_range lo hi body st) post      (coq/C20/ForLoop.v)
+    x[i]   (x : list Z / list Q)            ->  zget x i / qget x i   (out of bounds, incl. negative indices -> Fail)
+    x[i] = e, x[i] += e, x[i] -= e          ->  zset x i ...          (integer arrays only)
+    len(x), x.size                          ->  Z.of_nat (length x)
+    np.zeros(n, dtype=np.uintNN)            ->  repeat 0 (Z.to_nat n)        np.empty_like(x, dtype=np.uintNN) -> repeat 0 (length x)
+    + - * on int / float                    ->  Z / Q operations (an int operand next to a float one is injected)
+    a / b                                   ->  Qdiv, Fail when b == 0        a ** b (ints) -> Z.pow, Fail when b < 0
+    np.abs / abs, np.rint, round            ->  Z.abs / Qabs, inject_Z (rint _), rint _   (rint = Model.rint, half-to-even)
+    np.uint16 / np.uint64 / int of a float  ->  py_trunc (truncation towards zero, no wrap-around)
     b &= e, b |= e   (bools)                ->  b && e, b || e
-    raise ValueError(...)                   ->  Fail
-    return e                                ->  Ret (e, x1, .., xn)   with the final contents of all array parameters
-                                                (the kernels mutate their arguments in place)
+    raise ...                               ->  Fail
+    return e / return e1, e2                ->  Ret (e.., m1, .., mk)  with the final contents of the array PARAMETERS that
+                                                the kernel assigns to (they are mutated in place)
+    if c: A  (falls through) ; rest         ->  if c then [A; rest] else [rest]     (continuation duplicated, no state packing)
 
-Array parameters are those that are subscripted or passed to len().  Subscripts inside `and`/`or`/conditional
-expressions are refused (hoisting them would change which IndexError can happen).  Decorators other than `njit`,
-anything else outside the subset: Unsupported -> the obligation is reported as broken, nothing is guessed.
+CANONICAL LOOP STATE.  The state that travels through a `for` loop consists of all parameters (in order) followed by
+those locals (in order of their first assignment in the source) that are live at the loop head: read in the body before
+being definitely assigned in the same iteration, or read after the loop.  Every other local of the body is a plain `let`.
+Hence adding, removing or renaming a temporary, or re-ordering independent assignments, does not change the type of the
+generated loop body, and the equality proofs in coq/C20/GenEq.v (which never mention the body's text, only its meaning as a
+state transformer) keep working.  A wrong liveness decision cannot make a proof succeed wrongly: a variable that is not
+in the state and not let-bound is an unbound identifier in the generated file.
+
+Subscripts inside `and`/`or`/conditional expressions are refused (hoisting them would change which IndexError can
+happen).  Decorators other than `njit`, `while`, anything else outside the subset: Unsupported -> the obligation is
+reported as broken, nothing is guessed.
 """
 import ast
+import fractions
 import os
 import sys
 
 sys.path.insert(0, os.path.dirname(os.path.abspath(__file__)))
-import py2gallina  # noqa: E402
 from py2gallina import Unsupported, _name  # noqa: E402
 
 
 COQ_KEYWORDS = {'end', 'match', 'with', 'fun', 'let', 'in', 'if', 'then', 'else', 'fix', 'cofix', 'forall', 'exists', 'return',
-                'as', 'at', 'for', 'where', 'Type', 'Prop', 'Set', 'struct', 'using', 'st', 'r', 'loop_i', 'old'}
+                'as', 'at', 'for', 'where', 'Type', 'Prop', 'Set', 'struct', 'using', 'st', 'r', 'loop_i', 'old', 'rint', 'repeat',
+                'length', 'zget', 'zset', 'qget'}
+INT_DTYPES = {'uint8', 'uint16', 'uint32', 'uint64', 'int8', 'int16', 'int32', 'int64'}
+DEFAULTS = {'Z': '0', 'Q': '(inject_Z 0)', 'bool': 'false', 'list Z': '(@nil Z)', 'list Q': '(@nil Q)'}
 
 
 class _Rename(ast.NodeTransformer):
@@ -39,72 +59,337 @@ class _Rename(ast.NodeTransformer):
         return node
 
 
-class LoopKernelTranslator(py2gallina.FuncTranslator):
-    def __init__(self, fdef, prefix='gen_'):
+def _loads(node):
+    return {n.id for n in ast.walk(node) if isinstance(n, ast.Name) and isinstance(n.ctx, ast.Load) and n.id != 'np'}
+
+
+def _np_attr(e, names):
+    return isinstance(e, ast.Attribute) and isinstance(e.value, ast.Name) and e.value.id == 'np' and e.attr in names
+
+
+class Kernel:
+    def __init__(self, fdef, types=None, prefix='gen_'):
         fdef = _Rename().visit(fdef)
         for d in fdef.decorator_list:
             if not (isinstance(d, ast.Name) and d.id == 'njit'):
                 raise Unsupported('decorator')
-        self.arrays = []
-        self.binds = []
-        self.bodies = []
-        self.ret_type = None
-        super().__init__(fdef, prefix)
-
-    # ---- typing
-    def _scan_arrays(self):
-        for n in ast.walk(self.f):
-            name = None
+        a = fdef.args
+        if a.vararg or a.kwarg or a.kwonlyargs or a.defaults or a.posonlyargs:
+            raise Unsupported('only plain positional parameters')
+        self.f = fdef
+        self.fname = prefix + fdef.name.lstrip('_')
+        self.params = [x.arg for x in a.args]
+        self.types = {}
+        self.tmp = 0
+        self.binds, self.divs = [], []
+        self.defs = []            # generated top-level definitions (text), in dependency order
+        self.loops = []           # (state type name, [state variables])
+        self.ret_types = None
+        self.depth = 0
+        subscripted = set()
+        for n in ast.walk(fdef):
             if isinstance(n, ast.Subscript) and isinstance(n.value, ast.Name):
-                name = n.value.id
-            if isinstance(n, ast.Call) and isinstance(n.func, ast.Name) and n.func.id == 'len' and len(n.args) == 1 \
+                subscripted.add(n.value.id)
+            if isinstance(n, ast.Call) and isinstance(n.func, ast.Name) and n.func.id == 'len' and n.args \
                     and isinstance(n.args[0], ast.Name):
-                name = n.args[0].id
-            if name is not None:
-                if name not in self.params:
-                    raise Unsupported('array %s is not a parameter' % name)
-                if name not in self.arrays:
-                    self.arrays.append(name)
-        self.arrays.sort(key=self.params.index)
-        for a in self.arrays:
-            self.types[a] = 'list Z'
-
-    def _collect(self, stmts, top=True):
-        if top and not getattr(self, '_scanned', False):
-            self._scanned = True
-            self._scan_arrays()
-        for s in stmts:
-            if isinstance(s, ast.For):
-                if s.orelse or not isinstance(s.target, ast.Name):
-                    raise Unsupported('for-else / tuple loop variable')
-                self._range_args(s.iter)
-                self._declare(s.target.id, ast.Constant(0))
-                self._collect(s.body, False)
-            elif isinstance(s, ast.Raise):
-                pass
-            elif isinstance(s, ast.Assign) and len(s.targets) == 1 and isinstance(s.targets[0], ast.Subscript):
-                self._array_target(s.targets[0])
-            elif isinstance(s, ast.AugAssign) and isinstance(s.target, ast.Subscript):
-                self._array_target(s.target)
-            elif isinstance(s, ast.If):
-                self._collect(s.body, False)
-                self._collect(s.orelse, False)
-            elif isinstance(s, ast.Return):
-                if s.value is None or isinstance(s.value, ast.Tuple):
-                    raise Unsupported('return form')
-                t = 'bool' if self._is_bool_expr(s.value) else 'Z'
-                if self.ret_type not in (None, t):
-                    raise Unsupported('returns of different type')
-                self.ret_type = t
-                self.ret_arity = 1
-            elif isinstance(s, ast.While):
-                raise Unsupported('while loop in a loop kernel')
+                subscripted.add(n.args[0].id)
+            if isinstance(n, ast.Attribute) and n.attr == 'size' and isinstance(n.value, ast.Name):
+                subscripted.add(n.value.id)
+        types = types or {}
+        for x in a.args:
+            ann = ast.unparse(x.annotation) if x.annotation is not None else ''
+            if x.arg in types:
+                t = types[x.arg]
+            elif x.arg in subscripted:
+                t = 'list Z'
+            elif ann == 'float':
+                t = 'Q'
+            elif ann == 'bool':
+                t = 'bool'
+            elif ann in ('int', ''):
+                t = 'Z'
             else:
-                super()._collect([s])
+                raise Unsupported('parameter annotation %s' % ann)
+            if t not in DEFAULTS:
+                raise Unsupported('type %s' % t)
+            self.types[x.arg] = t
+        # array parameters that are assigned to: their final contents are part of the result
+        self.mutated = []
+        # locals in order of first assignment (source order)
+        self.locals = []
+        for n in self._stmts_in_order(fdef.body):
+            tgt = None
+            if isinstance(n, ast.Assign) and len(n.targets) == 1:
+                tgt = n.targets[0]
+            elif isinstance(n, ast.AugAssign):
+                tgt = n.target
+            elif isinstance(n, ast.For):
+                tgt = n.target
+            if isinstance(tgt, ast.Name):
+                if tgt.id not in self.params and tgt.id not in self.locals:
+                    self.locals.append(tgt.id)
+            elif isinstance(tgt, ast.Subscript) and isinstance(tgt.value, ast.Name):
+                if tgt.value.id in self.params and tgt.value.id not in self.mutated:
+                    self.mutated.append(tgt.value.id)
+        self.mutated.sort(key=self.params.index)
 
-    def _array_target(self, t):
-        if not (isinstance(t.value, ast.Name) and t.value.id in self.arrays):
-            raise Unsupported('subscript target')
+    @staticmethod
+    def _stmts_in_order(stmts):
+        for s in stmts:
+            yield s
+            for fld in ('body', 'orelse'):
+                sub = getattr(s, fld, None)
+                if isinstance(sub, list):
+                    yield from Kernel._stmts_in_order(sub)
+
+    # ---------------------------------------------------------------------------------------------- liveness
+    @staticmethod
+    def falls_through(stmts):
+        for s in stmts:
+            if isinstance(s, (ast.Return, ast.Raise)):
+                return False
+            if isinstance(s, ast.If) and s.orelse and not Kernel.falls_through(s.body) and not Kernel.falls_through(s.orelse):
+                return False
+        return True
+
+    def _live_in(self, stmts, defined):
+        """names read before being definitely assigned, and the set definitely assigned afterwards"""
+        uses = set()
+        defined = set(defined)
+        for s in stmts:
+            if isinstance(s, ast.Assign) and len(s.targets) == 1 and isinstance(s.targets[0], ast.Name):
+                uses |= _loads(s.value) - defined
+                defined.add(s.targets[0].id)
+            elif isinstance(s, ast.Assign) and len(s.targets) == 1 and isinstance(s.targets[0], ast.Subscript):
+                t = s.targets[0]
+                uses |= (_loads(s.value) | _loads(t.slice) | _loads(t.value)) - defined
+            elif isinstance(s, ast.AugAssign) and isinstance(s.target, ast.Name):
+                uses |= (_loads(s.value) | {s.target.id}) - defined
+            elif isinstance(s, ast.AugAssign) and isinstance(s.target, ast.Subscript):
+                t = s.target
+                uses |= (_loads(s.value) | _loads(t.slice) | _loads(t.value)) - defined
+            elif isinstance(s, ast.If):
+                uses |= _loads(s.test) - defined
+                u1, d1 = self._live_in(s.body, defined)
+                u2, d2 = self._live_in(s.orelse, defined)
+                uses |= u1 | u2
+                f1, f2 = self.falls_through(s.body), self.falls_through(s.orelse)
+                defined = (d1 & d2) if (f1 and f2) else d1 if f1 else d2 if f2 else defined
+            elif isinstance(s, ast.For):
+                uses |= _loads(s.iter) - defined
+                if not isinstance(s.target, ast.Name):
+                    raise Unsupported('tuple loop variable')
+                u, _ = self._live_in(s.body, defined | {s.target.id})
+                uses |= u
+            elif isinstance(s, (ast.Return, ast.Raise, ast.Assert, ast.Expr, ast.Pass)):
+                uses |= _loads(s) - defined
+            else:
+                raise Unsupported('statement ' + type(s).__name__)
+        return uses, defined
+
+    def _state_vars(self, loop):
+        live, _ = self._live_in(loop.body, {loop.target.id})
+        inside = {id(n) for n in ast.walk(loop)}
+        after = set()
+        for n in ast.walk(self.f):
+            if isinstance(n, ast.Name) and isinstance(n.ctx, ast.Load) and id(n) not in inside:
+                if self.depth > 0 or n.lineno > loop.end_lineno or (n.lineno == loop.end_lineno and n.col_offset >= loop.end_col_offset):
+                    after.add(n.id)
+        first = {}
+        for n in self._stmts_in_order(self.f.body):
+            tgt = n.targets[0] if isinstance(n, ast.Assign) and len(n.targets) == 1 else getattr(n, 'target', None)
+            if isinstance(tgt, ast.Name) and tgt.id not in first:
+                first[tgt.id] = (n.lineno, n.col_offset)
+        end = (loop.end_lineno, loop.end_col_offset)
+        keep = [v for v in self.locals if v in (live | after) and first.get(v, end) < end]
+        return list(self.params) + keep
+
+    # ---------------------------------------------------------------------------------------------- expressions
+    def _ty(self, name):
+        if name not in self.types:
+            raise Unsupported('variable %s read before any assignment seen by the translator' % name)
+        return self.types[name]
+
+    @staticmethod
+    def _q(txt, ty):
+        if ty == 'Q':
+            return txt
+        if ty == 'Z':
+            return '(inject_Z %s)' % txt
+        raise Unsupported('numeric operand of type %s' % ty)
+
+    def ex(self, e):
+        """(text, type) of an expression; subscripts and divisors are recorded in self.binds / self.divs"""
+        if isinstance(e, ast.Constant):
+            if isinstance(e.value, bool):
+                return ('true' if e.value else 'false'), 'bool'
+            if isinstance(e.value, int):
+                return '(%d)' % e.value, 'Z'
+            if isinstance(e.value, float) and e.value == e.value and abs(e.value) != float('inf'):
+                fr = fractions.Fraction(e.value)
+                return '(Qmake (%d) %d)' % (fr.numerator, fr.denominator), 'Q'
+            raise Unsupported('constant %r' % (e.value,))
+        if isinstance(e, ast.Name):
+            return _name(e.id), self._ty(e.id)
+        if isinstance(e, ast.UnaryOp):
+            a, t = self.ex(e.operand)
+            if isinstance(e.op, ast.USub) and t == 'Z':
+                return '(- %s)' % a, 'Z'
+            if isinstance(e.op, ast.USub) and t == 'Q':
+                return '(Qopp %s)' % a, 'Q'
+            if isinstance(e.op, ast.Not) and t == 'bool':
+                return '(negb %s)' % a, 'bool'
+            raise Unsupported('unary op')
+        if isinstance(e, ast.BinOp):
+            a, ta = self.ex(e.left)
+            b, tb = self.ex(e.right)
+            if ta not in ('Z', 'Q') or tb not in ('Z', 'Q'):
+                raise Unsupported('arithmetic on %s / %s' % (ta, tb))
+            if isinstance(e.op, ast.Div):
+                qa, qb = self._q(a, ta), self._q(b, tb)
+                self.divs.append('(Qeq_bool %s (inject_Z 0))' % qb)
+                return '(Qdiv %s %s)' % (qa, qb), 'Q'
+            if isinstance(e.op, (ast.Add, ast.Sub, ast.Mult)):
+                if ta == 'Z' and tb == 'Z':
+                    return '(%s %s %s)' % (a, {ast.Add: '+', ast.Sub: '-', ast.Mult: '*'}[type(e.op)], b), 'Z'
+                f = {ast.Add: 'Qplus', ast.Sub: 'Qminus', ast.Mult: 'Qmult'}[type(e.op)]
+                return '(%s %s %s)' % (f, self._q(a, ta), self._q(b, tb)), 'Q'
+            if ta == 'Z' and tb == 'Z':
+                if isinstance(e.op, ast.FloorDiv):
+                    self.divs.append('(%s =? 0)' % b)
+                    return '(Z.div %s %s)' % (a, b), 'Z'
+                if isinstance(e.op, ast.Mod):
+                    self.divs.append('(%s =? 0)' % b)
+                    return '(Z.modulo %s %s)' % (a, b), 'Z'
+                if isinstance(e.op, ast.Pow):
+                    self.divs.append('(%s <? 0)' % b)
+                    return '(Z.pow %s %s)' % (a, b), 'Z'
+            raise Unsupported('binary op ' + type(e.op).__name__)
+        if isinstance(e, (ast.BoolOp, ast.IfExp)):
+            for sub in ast.walk(e):
+                if isinstance(sub, (ast.Subscript, ast.Div, ast.FloorDiv, ast.Mod, ast.Pow)):
+                    raise Unsupported('subscript / division under and/or/conditional expression')
+        if isinstance(e, ast.BoolOp):
+            parts = [self.ex(v) for v in e.values]
+            if any(t != 'bool' for _, t in parts):
+                raise Unsupported('and/or on non-bool')
+            return '(' + (' && ' if isinstance(e.op, ast.And) else ' || ').join(p for p, _ in parts) + ')', 'bool'
+        if isinstance(e, ast.IfExp):
+            c, tc = self.ex(e.test)
+            a, ta = self.ex(e.body)
+            b, tb = self.ex(e.orelse)
+            if tc != 'bool' or ta != tb:
+                raise Unsupported('conditional expression types')
+            return '(if %s then %s else %s)' % (c, a, b), ta
+        if isinstance(e, ast.Compare):
+            parts = []
+            left = e.left
+            for op, right in zip(e.ops, e.comparators):
+                a, ta = self.ex(left)
+                b, tb = self.ex(right)
+                if ta == 'Z' and tb == 'Z':
+                    sym = {ast.Lt: '<?', ast.LtE: '<=?', ast.Gt: '>?', ast.GtE: '>=?', ast.Eq: '=?'}.get(type(op))
+                    if sym is not None:
+                        parts.append('(%s %s %s)' % (a, sym, b))
+                    elif isinstance(op, ast.NotEq):
+                        parts.append('(negb (%s =? %s))' % (a, b))
+                    else:
+                        raise Unsupported('comparison ' + type(op).__name__)
+                elif ta in ('Z', 'Q') and tb in ('Z', 'Q'):
+                    a, b = self._q(a, ta), self._q(b, tb)
+                    form = {ast.LtE: '(Qle_bool %s %s)' % (a, b), ast.Lt: '(negb (Qle_bool %s %s))' % (b, a),
+                            ast.GtE: '(Qle_bool %s %s)' % (b, a), ast.Gt: '(negb (Qle_bool %s %s))' % (a, b),
+                            ast.Eq: '(Qeq_bool %s %s)' % (a, b), ast.NotEq: '(negb (Qeq_bool %s %s))' % (a, b)}.get(type(op))
+                    if form is None:
+                        raise Unsupported('comparison ' + type(op).__name__)
+                    parts.append(form)
+                else:
+                    raise Unsupported('comparison of %s and %s' % (ta, tb))
+                left = right
+            return '(' + ' && '.join(parts) + ')', 'bool'
+        if isinstance(e, ast.Subscript):
+            if not isinstance(e.value, ast.Name) or isinstance(e.slice, (ast.Slice, ast.Tuple)):
+                raise Unsupported('subscript')
+            ta = self._ty(e.value.id)
+            if ta not in ('list Z', 'list Q'):
+                raise Unsupported('subscript of a non-array')
+            idx, ti = self.ex(e.slice)
+            if ti != 'Z':
+                raise Unsupported('non-integer index')
+            self.tmp += 1
+            t = 'elt%d' % self.tmp
+            self.binds.append((t, 'zget' if ta == 'list Z' else 'qget', _name(e.value.id), idx))
+            return t, ta[5:]
+        if isinstance(e, ast.Attribute):
+            if e.attr == 'size' and isinstance(e.value, ast.Name) and self._ty(e.value.id).startswith('list'):
+                return '(Z.of_nat (length %s))' % _name(e.value.id), 'Z'
+            raise Unsupported('attribute ' + e.attr)
+        if isinstance(e, ast.Call):
+            return self._call(e)
+        raise Unsupported('expression ' + type(e).__name__)
+
+    def _int_dtype(self, e):
+        kw = {k.arg: k.value for k in e.keywords}
+        if set(kw) != {'dtype'} or not _np_attr(kw['dtype'], INT_DTYPES):
+            raise Unsupported('array creation needs dtype=np.<integer type>')
+
+    def _call(self, e):
+        f = e.func
+        plain = f.id if isinstance(f, ast.Name) else None
+        if plain == 'len' and len(e.args) == 1 and not e.keywords and isinstance(e.args[0], ast.Name) \
+                and self._ty(e.args[0].id).startswith('list'):
+            return '(Z.of_nat (length %s))' % _name(e.args[0].id), 'Z'
+        if _np_attr(f, {'zeros'}) and len(e.args) == 1:
+            self._int_dtype(e)
+            n, tn = self.ex(e.args[0])
+            if tn != 'Z':
+                raise Unsupported('np.zeros shape')
+            return '(repeat 0 (Z.to_nat %s))' % n, 'list Z'
+        if _np_attr(f, {'empty_like', 'zeros_like'}) and len(e.args) == 1 and isinstance(e.args[0], ast.Name) \
+                and self._ty(e.args[0].id).startswith('list'):
+            self._int_dtype(e)
+            return '(repeat 0 (length %s))' % _name(e.args[0].id), 'list Z'
+        if e.keywords or len(e.args) != 1:
+            raise Unsupported('call')
+        a, ta = self.ex(e.args[0])
+        if plain == 'abs' or _np_attr(f, {'abs'}):
+            if ta == 'Z':
+                return '(Z.abs %s)' % a, 'Z'
+            if ta == 'Q':
+                return '(Qabs %s)' % a, 'Q'
+        if _np_attr(f, {'rint'}) and ta == 'Q':
+            return '(inject_Z (rint %s))' % a, 'Q'
+        if plain == 'round':
+            if ta == 'Q':
+                return '(rint %s)' % a, 'Z'
+            if ta == 'Z':
+                return a, 'Z'
+        if plain == 'int' or _np_attr(f, INT_DTYPES):
+            if ta == 'Q':
+                return '(py_trunc %s)' % a, 'Z'
+            if ta == 'Z':
+                return a, 'Z'
+        raise Unsupported('call ' + ast.unparse(f))
+
+    def guarded(self, e, k):
+        """translate e, then build k(text, type) under the array-bounds and divisor guards (evaluation order kept)"""
+        sb, sd = self.binds, self.divs
+        self.binds, self.divs = [], []
+        txt, ty = self.ex(e)
+        binds, divs = self.binds, self.divs
+        self.binds, self.divs = sb, sd
+        body = k(txt, ty)
+        for d in reversed(divs):
+            body = 'if %s then Fail else %s' % (d, body)
+        for t, get, arr, idx in reversed(binds):
+            body = 'match %s %s %s with Some %s => %s | None => Fail end' % (get, arr, idx, t, body)
+        return body
+
+    # ---------------------------------------------------------------------------------------------- statements
+    def _declare(self, name, ty):
+        if self.types.get(name, ty) != ty:
+            raise Unsupported('variable %s used at two types (%s, %s)' % (name, self.types[name], ty))
+        self.types[name] = ty
 
     @staticmethod
     def _range_args(it):
@@ -113,137 +398,175 @@ class LoopKernelTranslator(py2gallina.FuncTranslator):
             raise Unsupported('only for .. in range(hi) / range(lo, hi)')
         return (ast.Constant(0), it.args[0]) if len(it.args) == 1 else (it.args[0], it.args[1])
 
-    # ---- expressions
-    def expr(self, e, divisors, guarded_ctx=False):
-        if isinstance(e, ast.Subscript):
-            if not (isinstance(e.value, ast.Name) and e.value.id in self.arrays) or isinstance(e.slice, (ast.Slice, ast.Tuple)):
-                raise Unsupported('subscript')
-            idx = self.expr(e.slice, divisors)
-            self.tmp += 1
-            t = 'elt%d' % self.tmp
-            self.binds.append((t, _name(e.value.id), idx))
-            return t
-        if isinstance(e, ast.Call):
-            if isinstance(e.func, ast.Name) and e.func.id == 'len' and len(e.args) == 1 and not e.keywords \
-                    and isinstance(e.args[0], ast.Name) and e.args[0].id in self.arrays:
-                return '(Z.of_nat (length %s))' % _name(e.args[0].id)
-            raise Unsupported('call')
-        if isinstance(e, (ast.BoolOp, ast.IfExp)):
-            for sub in ast.walk(e):
-                if isinstance(sub, ast.Subscript):
-                    raise Unsupported('subscript under and/or/conditional expression')
-        if isinstance(e, ast.Name) and self.types.get(e.id) == 'list Z':
-            raise Unsupported('array used as a value')
-        return super().expr(e, divisors)
+    def _ret(self, parts):
+        tys = [t for _, t in parts] + [self.types[m] for m in self.mutated]
+        if self.ret_types not in (None, tys):
+            raise Unsupported('returns of different type')
+        self.ret_types = tys
+        return 'Ret (%s)' % ', '.join([p for p, _ in parts] + [_name(m) for m in self.mutated])
 
-    def guarded(self, e, k):
-        saved, self.binds = self.binds, []
-        divs = []
-        txt = self.expr(e, divs)
-        binds, self.binds = self.binds, saved
-        body = k(txt)
-        for d in reversed(divs):
-            body = 'if (%s =? 0) then Fail else %s' % (d, body)
-        for t, arr, idx in reversed(binds):
-            body = 'match zget %s %s with Some %s => %s | None => Fail end' % (arr, idx, t, body)
-        return body
-
-    # ---- statements
-    @staticmethod
-    def falls_through(stmts):
-        for s in stmts:
-            if isinstance(s, (ast.Return, ast.Raise)):
-                return False
-            if isinstance(s, ast.If) and s.orelse and not LoopKernelTranslator.falls_through(s.body) \
-                    and not LoopKernelTranslator.falls_through(s.orelse):
-                return False
-        return True
-
-    def _ret(self, v):
-        return 'Ret (%s)' % ', '.join([v] + [_name(a) for a in self.arrays])
-
-    def block(self, stmts, end):
+    def block(self, stmts, end, S):
         if not stmts:
             return end
         s, rest = stmts[0], stmts[1:]
+        if isinstance(s, ast.Expr):
+            if isinstance(s.value, ast.Constant) and isinstance(s.value.value, str):
+                return self.block(rest, end, S)
+            raise Unsupported('expression statement')
+        if isinstance(s, ast.Pass):
+            return self.block(rest, end, S)
         if isinstance(s, ast.Raise):
             return 'Fail'
+        if isinstance(s, ast.Assert):
+            def k_assert(c, t):
+                if t != 'bool':
+                    raise Unsupported('assert on non-bool')
+                return 'if %s then\n%s\nelse Fail' % (c, self.block(rest, end, S))
+            return self.guarded(s.test, k_assert)
         if isinstance(s, ast.Return):
-            return self.guarded(s.value, self._ret)
-        if isinstance(s, ast.For):
-            lo, hi = self._range_args(s.iter)
-            var = _name(s.target.id)
-            body = self.block(s.body, self.pack())
-            fname = self.prefix + self.f.name.lstrip('_')
-            bname = '%s_body%d' % (fname, len(self.bodies) + 1)
-            # every local (parameters included) travels in the state, so the loop body is a closed top-level definition
-            self.bodies.append('Definition %s (loop_i : Z) (st : %s_state) : ctl %s_result %s_state :=\n%s\nlet %s := loop_i in\n%s.'
-                               % (bname, fname, fname, fname, self.unpack('st'), var, body))
-            loop = 'for_range %%s %%s %s (%s)' % (bname, ', '.join(_name(v) for v in self.locals))
-            after = 'match %%s with\n| Next st => %s\n%s\n| Ret r => Ret r | Fail => Fail | OutOfFuel => OutOfFuel\nend' % (
-                self.unpack('st'), self.block(rest, end))
-            return self.guarded(lo, lambda l: self.guarded(hi, lambda h: after % (loop % (l, h))))
-        if isinstance(s, ast.Assign) and isinstance(s.targets[0], ast.Subscript):
+            if s.value is None:
+                raise Unsupported('bare return')
+            elts = s.value.elts if isinstance(s.value, ast.Tuple) else [s.value]
+            sb, sd = self.binds, self.divs
+            self.binds, self.divs = [], []
+            parts = [self.ex(x) for x in elts]
+            binds, divs = self.binds, self.divs
+            self.binds, self.divs = sb, sd
+            body = self._ret(parts)
+            for d in reversed(divs):
+                body = 'if %s then Fail else %s' % (d, body)
+            for t, get, arr, idx in reversed(binds):
+                body = 'match %s %s %s with Some %s => %s | None => Fail end' % (get, arr, idx, t, body)
+            return body
+        if isinstance(s, ast.Assign):
+            if len(s.targets) != 1:
+                raise Unsupported('chained assignment')
             t = s.targets[0]
-            arr = _name(t.value.id)
-            return self.guarded(t.slice, lambda i: self.guarded(s.value, lambda v: (
-                'match zset %s %s %s with Some %s => %s | None => Fail end' % (arr, i, v, arr, self.block(rest, end)))))
-        if isinstance(s, ast.AugAssign) and isinstance(s.target, ast.Subscript):
-            op = {ast.Add: '+', ast.Sub: '-', ast.Mult: '*'}.get(type(s.op))
-            if op is None:
-                raise Unsupported('augmented op on array element')
+            if isinstance(t, ast.Name):
+                def k_assign(v, ty):
+                    self._declare(t.id, ty)
+                    return 'let %s := %s in\n%s' % (_name(t.id), v, self.block(rest, end, S))
+                return self.guarded(s.value, k_assign)
+            if isinstance(t, ast.Subscript) and isinstance(t.value, ast.Name) and self._ty(t.value.id) == 'list Z' \
+                    and not isinstance(t.slice, (ast.Slice, ast.Tuple)):
+                arr = _name(t.value.id)
+
+                def k_idx(i, ti):
+                    if ti != 'Z':
+                        raise Unsupported('non-integer index')
+
+                    def k_val(v, tv):
+                        if tv != 'Z':
+                            raise Unsupported('non-integer value stored in an integer array')
+                        return 'match zset %s %s %s with Some %s => %s | None => Fail end' % (
+                            arr, i, v, arr, self.block(rest, end, S))
+                    return self.guarded(s.value, k_val)
+                return self.guarded(t.slice, k_idx)
+            raise Unsupported('assignment target ' + ast.dump(t))
+        if isinstance(s, ast.AugAssign):
             t = s.target
-            arr = _name(t.value.id)
-            return self.guarded(t.slice, lambda i: self.guarded(s.value, lambda v: (
-                'match zget %s %s with Some old => match zset %s %s (old %s %s) with Some %s => %s | None => Fail end '
-                '| None => Fail end' % (arr, i, arr, i, op, v, arr, self.block(rest, end)))))
-        if isinstance(s, ast.AugAssign) and isinstance(s.op, (ast.BitAnd, ast.BitOr)):
-            if not (isinstance(s.target, ast.Name) and self.types.get(s.target.id) == 'bool' and self._is_bool_expr(s.value)):
-                raise Unsupported('&= / |= on non-bool')
-            n = _name(s.target.id)
-            sym = '&&' if isinstance(s.op, ast.BitAnd) else '||'
-            return self.guarded(s.value, lambda v: 'let %s := (%s %s %s) in\n%s' % (n, n, sym, v, self.block(rest, end)))
+            if isinstance(t, ast.Name) and isinstance(s.op, (ast.BitAnd, ast.BitOr)):
+                n = _name(t.id)
+                sym = '&&' if isinstance(s.op, ast.BitAnd) else '||'
+
+                def k_bool(v, tv):
+                    if tv != 'bool' or self._ty(t.id) != 'bool':
+                        raise Unsupported('&= / |= on non-bool')
+                    return 'let %s := (%s %s %s) in\n%s' % (n, n, sym, v, self.block(rest, end, S))
+                return self.guarded(s.value, k_bool)
+            if isinstance(t, ast.Name):
+                return self.block([ast.copy_location(ast.Assign(targets=[ast.Name(id=t.id, ctx=ast.Store())], value=ast.BinOp(
+                    left=ast.Name(id=t.id, ctx=ast.Load()), op=s.op, right=s.value)), s)] + rest, end, S)
+            if isinstance(t, ast.Subscript) and isinstance(t.value, ast.Name) and self._ty(t.value.id) == 'list Z' \
+                    and not isinstance(t.slice, (ast.Slice, ast.Tuple)):
+                op = {ast.Add: '+', ast.Sub: '-', ast.Mult: '*'}.get(type(s.op))
+                if op is None:
+                    raise Unsupported('augmented op on array element')
+                arr = _name(t.value.id)
+
+                def k_idx2(i, ti):
+                    if ti != 'Z':
+                        raise Unsupported('non-integer index')
+
+                    def k_val2(v, tv):
+                        if tv != 'Z':
+                            raise Unsupported('non-integer value stored in an integer array')
+                        return ('match zget %s %s with Some old => match zset %s %s (old %s %s) with Some %s => %s '
+                                '| None => Fail end | None => Fail end' % (arr, i, arr, i, op, v, arr, self.block(rest, end, S)))
+                    return self.guarded(s.value, k_val2)
+                return self.guarded(t.slice, k_idx2)
+            raise Unsupported('augmented assignment target')
         if isinstance(s, ast.If):
-            # same scheme as the base class, with this class' notion of falling through
-            if not self.falls_through([s]) or not rest:
-                return self.guarded(s.test, lambda c: '(if %s then\n%s\nelse\n%s)' % (
-                    c, self.block(s.body, end), self.block(s.orelse, end)))
-            inner = self.guarded(s.test, lambda c: '(if %s then\n%s\nelse\n%s)' % (
-                c, self.block(s.body, self.pack()), self.block(s.orelse, self.pack())))
-            return 'match %s with\n| Next st => %s\n%s\n| Ret r => Ret r | Fail => Fail | OutOfFuel => OutOfFuel\nend' % (
-                inner, self.unpack('st'), self.block(rest, end))
-        if isinstance(s, ast.While):
-            raise Unsupported('while loop in a loop kernel')
-        return super().block(stmts, end)
+            def k_if(c, tc):
+                if tc != 'bool':
+                    raise Unsupported('condition of type %s' % tc)
+                saved = dict(self.types)
+                a = self.block(s.body + rest, end, S)
+                b = self.block(s.orelse + rest, end, S)
+                del saved
+                return '(if %s then\n%s\nelse\n%s)' % (c, a, b)
+            return self.guarded(s.test, k_if)
+        if isinstance(s, ast.For):
+            if s.orelse or not isinstance(s.target, ast.Name):
+                raise Unsupported('for-else / tuple loop variable')
+            lo, hi = self._range_args(s.iter)
+            var = s.target.id
+            state = self._state_vars(s)
+            k = len(self.loops) + 1
+            sname, bname, pname = '%s_state%d' % (self.fname, k), '%s_body%d' % (self.fname, k), '%s_post%d' % (self.fname, k)
+            self.loops.append((sname, state))
+            tup = ', '.join(_name(v) for v in state)
+            unpack = ("let '(%s) := st in" % tup) if len(state) > 1 else ('let %s := st in' % tup)
+            self._declare(var, 'Z')
+
+            def k_lo(l, tl):
+                def k_hi(h, th):
+                    if tl != 'Z' or th != 'Z':
+                        raise Unsupported('range bounds')
+                    self.depth += 1
+                    body = self.block(s.body, 'Next (%s)' % tup, sname)
+                    self.depth -= 1
+                    self.defs.append('Definition %s (loop_i : Z) (st : %s) : ctl %s_result %s :=\n%s\nlet %s := loop_i in\n%s.'
+                                     % (bname, sname, self.fname, sname, unpack, _name(var), body))
+                    post = self.block(rest, end, S)
+                    self.defs.append('Definition %s (st : %s) : ctl %s_result %s :=\n%s\n%s.'
+                                     % (pname, sname, self.fname, S, unpack, post))
+                    return 'for_then (for_range %s %s %s (%s)) %s' % (l, h, bname, tup, pname)
+                return self.guarded(hi, k_hi)
+            return self.guarded(lo, k_lo)
+        raise Unsupported('statement ' + type(s).__name__)
 
     def translate(self):
-        fname = self.prefix + self.f.name.lstrip('_')
-        body = self.block(self.f.body, 'Fail')
-        S = ' * '.join(self.types[v] for v in self.locals)
-        R = ' * '.join([self.ret_type or 'Z'] + ['list Z'] * len(self.arrays))
-        out = ['Definition %s_state : Type := (%s)%%type.' % (fname, S),
-               'Definition %s_result : Type := (%s)%%type.' % (fname, R)]
-        inits = ''.join('let %s := %s in\n' % (_name(v), 'false' if self.types[v] == 'bool' else '0')
-                        for v in self.locals if v not in self.params)
-        out.extend(self.bodies)
-        out.append('Definition %s %s : ctl %s_result %s_state :=\n%s%s.' % (
-            fname, ' '.join('(%s : %s)' % (_name(p), self.types[p]) for p in self.params), fname, fname, inits, body))
+        body = self.block(self.f.body, 'Fail', 'unit')
+        if self.ret_types is None:
+            raise Unsupported('no return')
+        missing = [v for v in self.locals if v not in self.types]
+        if missing:
+            raise Unsupported('untyped locals %s' % missing)
+        out = ['Definition %s_result : Type := (%s)%%type.' % (self.fname, ' * '.join(self.ret_types))]
+        for sname, state in self.loops:
+            out.append('Definition %s : Type := (%s)%%type.' % (sname, ' * '.join(self.types[v] for v in state)))
+        out.extend(self.defs)
+        inits = ''.join('let %s := %s in\n' % (_name(v), DEFAULTS[self.types[v]]) for v in self.locals)
+        out.append('Definition %s %s : ctl %s_result unit :=\n%s%s.' % (
+            self.fname, ' '.join('(%s : %s)' % (_name(p), self.types[p]) for p in self.params), self.fname, inits, body))
         return '\n\n'.join(out)
 
 
-def translate_functions(path, names, prefix='gen_'):
+def translate_functions(path, names, prefix='gen_', types=None):
     with open(path) as fh:
         src = fh.read()
     tree = ast.parse(src)
     found = {n.name: n for n in tree.body if isinstance(n, ast.FunctionDef)}
     parts = ['(* GENERATED by /verif/translate/py2gallina_c20.py from %s -- do not edit *)' % path,
-             'From Coq Require Import ZArith Bool List.', 'Require Import QV.common.Ctl QV.C20.ForLoop.',
+             'From Coq Require Import ZArith QArith Qround Qabs Bool List.',
+             'Require Import QV.common.Ctl QV.C20.ForLoop QV.C20.Model.',
              'Import ListNotations.', 'Open Scope Z_scope.', '']
     for n in names:
         if n not in found:
             raise Unsupported('function %s not found in %s' % (n, path))
         parts.append('(* ---- %s ---- *)' % n)
-        parts.append(LoopKernelTranslator(found[n], prefix).translate())
+        parts.append(Kernel(found[n], (types or {}).get(n), prefix).translate())
         parts.append('')
     return '\n'.join(parts)
 
